@@ -341,3 +341,59 @@ pub fn parse_line(line: &str) -> String {
         Err(e) => syn_err_line(&e),
     }
 }
+
+// ---------------------------------------------------------------------------------------------------
+// The alias lexer and parser, one line at a time (for an external model of both).
+//
+//   alias_line : "ok n {trans}*" | "err Variant start end [start end]"      trans := item item
+//   item := E | B | R plus cp.cp… | G n {seg}*          seg := I r m l p (0 | 1 mods) | X mods
+
+use crate::alias::{AliasKind, lexer::AliasLexer, parser::{AliasParser, AliasItem, AliasParseElement, SegType}};
+use crate::error::AliasSyntaxError;
+
+fn alias_err_line(e: &AliasSyntaxError) -> String {
+    use AliasSyntaxError as E;
+    let dbg = format!("{e:?}");
+    let name: String = dbg.chars().take_while(|c| c.is_ascii_alphanumeric()).collect();
+    let spans: Vec<(usize, usize)> = match e {
+        E::InvalidUnicodeEscape(_, _, _, p) | E::InvalidNamedEscape(_, _, _, p) | E::ExpectedAlphabetic(_, _, _, p) | E::ExpectedRightCurly(_, _, _, p) |
+        E::ExpectedCharArrow(_, _, _, p) | E::ExpectedCharColon(_, _, _, p) | E::ExpectedLeftCurly(_, _, _, p) | E::UnknownEscapeChar(_, _, _, p) |
+        E::UnknownCharacter(_, _, _, p) | E::ExpectedNumber(_, _, _, p) | E::EmptyReplacements(_, _, p) | E::OutsideBrackets(_, _, p) |
+        E::NestedBrackets(_, _, p) | E::WrongModTone(_, _, p) | E::EmptyInput(_, _, p) => vec![(*p, *p + 1)],
+        E::PlusInDerom(p) | E::ToneTooBig(p) | E::UnknownFeature(_, p) | E::UnknownEnbyFeature(_, p) => vec![(p.start, p.end)],
+        E::ExpectedTokenFeature(t) | E::ExpectedEndLine(t) | E::ExpectedMatrix(t) | E::ExpectedArrow(t) | E::UnknownGroup(t) | E::UnknownIPA(t) |
+        E::UnexpectedEol(t, _) => vec![(t.position.start, t.position.end)],
+        E::DiacriticDoesNotMeetPreReqsFeat(a, b, ..) | E::DiacriticDoesNotMeetPreReqsNode(a, b, ..) => vec![(a.start, a.end), (b.start, b.end)],
+        E::UnbalancedIO(items) => match (items.first(), items.last()) { (Some(f), Some(l)) => vec![(f.position.start, l.position.end)], _ => vec![] },
+    };
+    format!("err {name} {}", spans.iter().map(|(a, b)| format!("{a} {b}")).collect::<Vec<_>>().join(" "))
+}
+
+fn alias_item_toks(it: &AliasItem, out: &mut Vec<String>) {
+    match &it.kind {
+        AliasParseElement::Empty => out.push("E".into()),
+        AliasParseElement::SyllBound => out.push("B".into()),
+        AliasParseElement::Replacement(s, plus) => { out.push("R".into()); out.push(if *plus { "1".into() } else { "0".into() });
+            out.push(if s.is_empty() { "-".into() } else { s.chars().map(|c| (c as u32).to_string()).collect::<Vec<_>>().join(".") }); }
+        AliasParseElement::Segments(v) => { out.push("G".into()); out.push(v.len().to_string());
+            for st in v { match st {
+                SegType::Ipa(seg, m) => { out.push("I".into()); let s = seg_to_s(seg); out.push(s.0.to_string()); out.push(s.1.to_string()); out.push(s.2.to_string()); out.push(opt_tok(&s.3)); opt_mods_toks(m, out); }
+                SegType::Matrix(m) => { out.push("X".into()); mods_toks(m, out); }
+            } } }
+    }
+}
+
+/// `AliasLexer::get_line` then `AliasParser::parse` on one alias line (`derom` = it is a deromaniser line).
+pub fn alias_line(derom: bool, line: &str) -> String {
+    let kind = if derom { AliasKind::Deromaniser } else { AliasKind::Romaniser };
+    let chars: Vec<char> = line.chars().collect();
+    let toks = match AliasLexer::new(kind, &chars, 0).get_line() { Ok(t) => t, Err(e) => return alias_err_line(&e) };
+    match AliasParser::new(kind, toks, 0).parse() {
+        Ok(ts) => {
+            let mut out: Vec<String> = vec![ts.len().to_string()];
+            for t in &ts { alias_item_toks(&t.input, &mut out); alias_item_toks(&t.output, &mut out); }
+            format!("ok {}", out.join(" "))
+        }
+        Err(e) => alias_err_line(&e),
+    }
+}
